@@ -58,6 +58,8 @@ static ld norm1_dense(const ref_t *M, int_t n)
 static ld norminf_dense(const ref_t *M, int_t n)
 { ld best = 0; for (int_t i = 0; i < n; ++i) { ld s = 0; for (int_t j = 0; j < n; ++j) s += rabs(M[(size_t)j * n + i]); if (s > best) best = s; } return best; }
 
+static const char *tagged(char *buf, size_t n, const char *key, const char *tag) { snprintf(buf, n, "%s%s", key, tag); return buf; }
+
 /* Judges a call that produced a solution.  bin = B as the caller passed it to this call. */
 static void judge_solution(const case_t *c, sys_t *S, int trans, equed_t equed, const SuperMatrix *L, const SuperMatrix *U,
                            const int_t *perm_r, const int_t *perm_c, double rcond_drv, double rpg_drv, int_t info, int first,
@@ -234,10 +236,11 @@ static void judge_solution(const case_t *c, sys_t *S, int trans, equed_t equed, 
     if (first) { jo_dbl("omega", (double)maxomega); jo_dbl("berr_diff", (double)worst_berr_diff); jo_dbl("ferr_ratio", (double)maxferr_ratio); }
 
     /* ---- C12: rcond, info = n+1, pivot growth (first call: the factorization belongs to it) ---- */
-    if (first && !sing) {
+    char kb[96];
+    if (!sing) {
         ld eps = (ld)LAMCH("E");
         if ((rcond_drv < (double)eps) != (info == n + 1))
-            jo_fail("C12|info-vs-rcond", "rcond = %.3e, eps = %.3Le but info = %ld (n = %ld)", rcond_drv, eps, (long)info, (long)n);
+            jo_fail(tagged(kb, sizeof kb, "C12|info-vs-rcond", tag), "rcond = %.3e, eps = %.3Le but info = %ld (n = %ld)", rcond_drv, eps, (long)info, (long)n);
         /* the estimator starts from e/n and iterates with inv(G) (1-norm) or inv(G)^H (inf-norm) */
         ld s_en = 0;
         if (use1) { for (int_t i = 0; i < n; ++i) { ref_t s = 0; for (int_t j = 0; j < n; ++j) s += Ginv[(size_t)j * n + i]; s_en += rabs(s) / n; } }
@@ -245,7 +248,7 @@ static void judge_solution(const case_t *c, sys_t *S, int trans, equed_t equed, 
         ld lo = 1.0L / kappa, hi = (anorm * s_en > 0) ? 1.0L / (anorm * s_en) : 1e300L;
         ld delta = 8.0L * n * UBOUND * kappa * (growth > 1 ? growth : 1);
         if (delta > 0.5L) delta = 0.5L;
-        jo_dbl("rcond", rcond_drv); jo_dbl("rcond_true", (double)lo); jo_dbl("rcond_hi", (double)hi);
+        if (first) { jo_dbl("rcond", rcond_drv); jo_dbl("rcond_true", (double)lo); jo_dbl("rcond_hi", (double)hi); }
         if (kappa * n * uw <= 1e-3L && u_thresh >= 0.1) {
             /* weaker upper bound that even a non-monotone last step of the estimator respects: the estimate is
                ||inv e/n||, some column norm of the inverse (resp. its transpose), or the alternating-sign test value */
@@ -258,12 +261,12 @@ static void judge_solution(const case_t *c, sys_t *S, int trans, equed_t equed, 
             }
             ld hi2 = 1.0L / (anorm * (mincol < s_en ? mincol : s_en));
             if ((ld)rcond_drv < lo * (1.0L - delta) * (1.0L - 64 * UROUND))
-                jo_fail("C12|rcond-below-lower-bound", "rcond = %.6e below 1/kappa = %.6Le (delta %.2Le, kappa %.3Le, norm %s)", rcond_drv, lo, delta, kappa, use1 ? "1" : "inf");
+                jo_fail(tagged(kb, sizeof kb, "C12|rcond-below-lower-bound", tag), "rcond = %.6e below 1/kappa = %.6Le (delta %.2Le, kappa %.3Le, norm %s)", rcond_drv, lo, delta, kappa, use1 ? "1" : "inf");
             else if ((ld)rcond_drv > hi2 * (1.0L + delta) * (1.0L + 64 * UROUND))
-                jo_fail("C12|rcond-above-any-estimate", "rcond = %.6e exceeds even 1/(||A|| min(||inv e/n||, min_j ||inv e_j||)) = %.6Le (kappa %.3Le, norm %s)", rcond_drv, hi2, kappa, use1 ? "1" : "inf");
+                jo_fail(tagged(kb, sizeof kb, "C12|rcond-above-any-estimate", tag), "rcond = %.6e exceeds even 1/(||A|| min(||inv e/n||, min_j ||inv e_j||)) = %.6Le (kappa %.3Le, norm %s)", rcond_drv, hi2, kappa, use1 ? "1" : "inf");
             else if ((ld)rcond_drv > hi * (1.0L + delta) * (1.0L + 64 * UROUND))
-                jo_fail("C12|rcond-above-e/n-bound", "rcond = %.6e exceeds 1/(||A||*||inv(A) e/n||) = %.6Le (delta %.2Le, kappa %.3Le, norm %s, n=%ld)", rcond_drv, hi, delta, kappa, use1 ? "1" : "inf", (long)n);
-            jo_int("rcond_judged", 1);
+                jo_fail(tagged(kb, sizeof kb, "C12|rcond-above-e/n-bound", tag), "rcond = %.6e exceeds 1/(||A||*||inv(A) e/n||) = %.6Le (delta %.2Le, kappa %.3Le, norm %s, n=%ld)", rcond_drv, hi, delta, kappa, use1 ? "1" : "inf", (long)n);
+            if (first) jo_int("rcond_judged", 1);
         }
         if (have_lu) {
             /* reciprocal pivot growth from the returned factors and the (equilibrated) matrix */
@@ -276,9 +279,9 @@ static void judge_solution(const case_t *c, sys_t *S, int trans, equed_t equed, 
                 ld q = (mu == 0) ? 1.0L : ma / mu;
                 if (q < rpg_ref) rpg_ref = q;
             }
-            jo_dbl("rpg", rpg_drv);
+            if (first) jo_dbl("rpg", rpg_drv);
             if (fabsl((ld)rpg_drv - rpg_ref) > 8.0L * UROUND * rpg_ref)
-                jo_fail("C12|pivot-growth", "recip_pivot_growth = %.9e but min_j max|A_ij|/max|U_ij| recomputed from the factors is %.9Le", rpg_drv, rpg_ref);
+                jo_fail(tagged(kb, sizeof kb, "C12|pivot-growth", tag), "recip_pivot_growth = %.9e but min_j max|A_ij|/max|U_ij| recomputed from the factors is %.9Le", rpg_drv, rpg_ref);
         }
     }
     if (have_lu) { lud_free(&d); free(W); }
@@ -363,6 +366,12 @@ int cmd_gssvx(const case_t *c)
     opt.perm_c = perm_c; opt.perm_r = perm_r; opt.work = NULL; opt.lwork = 0;
     opt.etree = intMalloc(n > 0 ? n : 1); opt.colcnt_h = intMalloc(n > 0 ? n : 1); opt.part_super_h = intMalloc(n > 0 ? n : 1);
     equed_t equed = NOEQUIL;
+    if (!equil) {
+        /* outputs are poisoned before the call: with fact = DOFACT the driver must report NOEQUIL whatever the variable held,
+           and must not use R/C (a later FACTORED call is fed whatever comes back) */
+        equed = (equed_t)(1 + cint(c, "seed", 1) % 3);
+        for (int_t i = 0; i < n; ++i) { S.R[i] = (real_t)(1e-3 * (1 + i % 5)); S.C[i] = (real_t)(3e2 * (1 + i % 3)); }
+    }
     real_t rpg = (real_t)-1, rcond = (real_t)-1;
     superlu_memusage_t mem; memset(&mem, 0, sizeof mem);
     int_t info = -999;
